@@ -98,6 +98,7 @@ void genReads(Rng& rng, const Swarm& sw, Plan& p, int kind, long docIdx, bool nu
       if (numcalc ? rng.chance(0.9) : rng.chance(0.05)) p.ops.push_back(Op("r.numcalc", 0, rng.below(16)));
     }
     if (rng.chance(0.1)) p.ops.push_back(Op(rng.chance(0.5) ? "r.lines" : "r.tok", docIdx, rng.below(64), chunkPick(rng, sw.pChunk), rng.below(1 << 10)));
+    if (rng.chance(0.12)) p.ops.push_back(Op("r.text", docIdx, rng.below(1 << 16), chunkPick(rng, sw.pChunk), rng.below(1 << 10)));
   }
 }
 
@@ -117,7 +118,7 @@ public:
     i.real = {"writers: DataTable::write (ostream and OutputStream overloads)", "BppODiscreteDistributionFormat::writeDiscreteDistribution", "BppOParametrizableFormat::write", "ParameterList::printParameters", "IntervalConstraint::getDescription",
               "readers: DataTable::read + editing calls", "FileTools::getNextLine / putStreamIntoVectorOfStrings / getFileName / getExtension / getParent (on paths read from the option map)", "AttributesTools::getAttributesMapFromFile (real scratch files) / getAttributesMap / resolveVariables / parseOptions (include chains, cycles, absent file)",
               "ApplicationTools::get*Parameter / getVectorParameter (both) / getVectorOfVectorsParameter / getMatrixParameter / getAFilePath / matchingParameters", "BppODiscreteDistributionFormat::readDiscreteDistribution", "IntervalConstraint::readDescription",
-              "KeyvalTools::parseProcedure / multipleKeyvals / singleKeyval / changeKeyvals", "NumCalcApplicationTools::getVector / seqFromString / getParameterGrid (on the option map just read)", "NestedStringTokenizer", "StringTokenizer", "ComputationTree", "TextTools (through the readers)"};
+              "KeyvalTools::parseProcedure / multipleKeyvals / singleKeyval / changeKeyvals", "NumCalcApplicationTools::getVector / seqFromString / getParameterGrid (on the option map just read)", "NestedStringTokenizer", "StringTokenizer", "ComputationTree", "TextTools (through the readers, and directly on stored lines: white space / case / block removal / fixed width / split / search / number recognition and conversion)"};
     i.stub = {"SimOutBuf (store written bytes)", "SimInBuf (serve stored bytes in 1..n byte chunks)", "harness writer for option files, include chains, key=value procedures and formulas (documented syntax; no library writer exists)", "scratch directory out/tmp/sst-<pid>-<n>/ for the file-based readers", "SimParams (AbstractParametrizable exposing addParameter_)"};
     i.rule = "plans: 1-4 transactions of write -> 0-2 storage faults (explicit kind/offset/byte operands) -> 1-3 reads through the natural or a foreign reader with randomised reader options and read chunking, plus follow-up calls on the object just read; enumerated prefix: every cut point of 27 small documents; non-trivial = >=3 completed steps and >=1 fault actually fired; distinct = distinct fingerprint of the executed op-kind/outcome sequence";
     i.simTime = "steps (no clock in these components)";
@@ -126,7 +127,7 @@ public:
                     "reach:AttributesTools::getAttributesMapFromFile", "reach:AttributesTools::getAttributesMap", "reach:AttributesTools::resolveVariables", "reach:AttributesTools::parseOptions",
                     "reach:ApplicationTools::getParameter", "reach:ApplicationTools::getVectorParameter", "reach:ApplicationTools::matchingParameters",
                     "reach:BppODiscreteDistributionFormat::readDiscreteDistribution", "reach:IntervalConstraint::readDescription", "reach:KeyvalTools::parseProcedure", "reach:KeyvalTools::multipleKeyvals",
-                    "reach:KeyvalTools::singleKeyval", "reach:FileTools::getFileName", "reach:FileTools::getExtension", "reach:FileTools::getParent", "reach:NumCalcApplicationTools::getVector", "reach:NumCalcApplicationTools::seqFromString", "reach:NumCalcApplicationTools::getParameterGrid", "raised:NumCalcApplicationTools::getVector", "raised:NumCalcApplicationTools::seqFromString", "raised:NumCalcApplicationTools::getParameterGrid", "reach:KeyvalTools::changeKeyvals", "reach:NestedStringTokenizer", "reach:StringTokenizer", "reach:StringTokenizer::unparseRemainingTokens", "reach:ComputationTree",
+                    "reach:KeyvalTools::singleKeyval", "reach:TextTools::removeSubstrings", "reach:TextTools::removeSubstrings(exceptions)", "reach:TextTools::resize", "reach:TextTools::split", "reach:TextTools::search", "reach:TextTools::toDouble", "reach:TextTools::toInt", "raised:TextTools::removeSubstrings", "raised:TextTools::toDouble", "reach:FileTools::getFileName", "reach:FileTools::getExtension", "reach:FileTools::getParent", "reach:NumCalcApplicationTools::getVector", "reach:NumCalcApplicationTools::seqFromString", "reach:NumCalcApplicationTools::getParameterGrid", "raised:NumCalcApplicationTools::getVector", "raised:NumCalcApplicationTools::seqFromString", "raised:NumCalcApplicationTools::getParameterGrid", "reach:KeyvalTools::changeKeyvals", "reach:NestedStringTokenizer", "reach:StringTokenizer", "reach:StringTokenizer::unparseRemainingTokens", "reach:ComputationTree",
                     "raised:DataTable::read", "raised:DataTable::edit", "raised:AttributesTools::resolveVariables", "raised:AttributesTools::parseOptions", "raised:ApplicationTools::getParameter",
                     "raised:BppODiscreteDistributionFormat::readDiscreteDistribution", "raised:IntervalConstraint::readDescription", "raised:KeyvalTools::parseProcedure", "raised:KeyvalTools::multipleKeyvals",
                     "raised:NestedStringTokenizer", "raised:StringTokenizer", "raised:ComputationTree",
